@@ -18,6 +18,7 @@ import (
 	"berty.tech/go-ipfs-log/identityprovider"
 	"berty.tech/go-ipfs-log/iface"
 	"berty.tech/go-ipfs-log/io/cbor"
+	"berty.tech/go-ipfs-log/verifhook"
 )
 
 type Snapshot = iface.Snapshot
@@ -303,6 +304,7 @@ func (l *IPFSLog) Has(c cid.Cid) bool {
 func (l *IPFSLog) Append(ctx context.Context, payload []byte, opts *AppendOptions) (iface.IPFSLogEntry, error) {
 	l.lock.Lock()
 	defer l.lock.Unlock()
+	verifhook.Yield("append.locked", l)
 
 	// next and refs are empty slices instead of nil
 	next := []cid.Cid{}
@@ -386,6 +388,7 @@ func (l *IPFSLog) Append(ctx context.Context, payload []byte, opts *AppendOption
 		return nil, errmsg.ErrLogAppendDenied.Wrap(err)
 	}
 
+	verifhook.Yield("append.before-publish", l)
 	l.Entries.Set(e.GetHash().String(), e)
 
 	for _, nextEntryCid := range next {
@@ -431,6 +434,7 @@ func (l *IPFSLog) Iterator(options *IteratorOptions, output chan<- iface.IPFSLog
 	}
 
 	l.lock.RLock()
+	verifhook.Yield("iterator.locked", l)
 	start := l.sortedHeads(l.heads.Slice()).Slice()
 
 	if options.LTE != nil {
@@ -526,9 +530,11 @@ func (l *IPFSLog) Join(otherLog iface.IPFSLog, size int) (iface.IPFSLog, error) 
 
 	l.lock.Lock()
 	defer l.lock.Unlock()
+	verifhook.Yield("join.locked", l)
 
 	newItems := difference(otherLog.GetEntries(), otherLog.RawHeads().Slice(), l)
 
+	verifhook.Yield("join.diffed", l)
 	wg := &sync.WaitGroup{}
 	wg.Add(newItems.Len())
 	var err error
@@ -578,6 +584,7 @@ func (l *IPFSLog) Join(otherLog iface.IPFSLog, size int) (iface.IPFSLog, error) 
 		}
 	}
 
+	verifhook.Yield("join.before-heads", l)
 	mergedHeads := entry.FindHeads(l.heads.Merge(otherLog.RawHeads()))
 
 	for idx, e := range mergedHeads {
